@@ -7,7 +7,12 @@ import (
 	"os"
 
 	"verifharness/corr"
+	"verifharness/suites/compat"
+	"verifharness/suites/errs"
 	"verifharness/suites/gen"
+	httpsuite "verifharness/suites/http"
+	"verifharness/suites/meta"
+	"verifharness/suites/migrate"
 	"verifharness/suites/pool"
 	"verifharness/suites/reader"
 	streamsuite "verifharness/suites/stream"
@@ -15,11 +20,16 @@ import (
 )
 
 var suites = map[string]func(*corr.Out){
-	"gen":    gen.Run,
-	"wire":   wire.Run,
-	"pool":   pool.Run,
-	"reader": reader.Run,
-	"stream": streamsuite.Run,
+	"compat":  compat.Run,
+	"http":    httpsuite.Run,
+	"errs":    errs.Run,
+	"meta":    meta.Run,
+	"gen":     gen.Run,
+	"wire":    wire.Run,
+	"migrate": migrate.Run,
+	"pool":    pool.Run,
+	"reader":  reader.Run,
+	"stream":  streamsuite.Run,
 }
 
 func main() {
